@@ -10,17 +10,21 @@ From Chalk Require Import Text.Syntax22 Text.TokEq Text.Print Text.Parse.
 
 Definition ty_start (t : tok) : bool :=
   match t with
-  | VAR _ _ | SELF | KW (Kscalar _) | ID _ | P PLParen | P PAmp => true
+  | VAR _ _ | SELF | KW (Kscalar _) | KW Kstr | ID _ | P PLParen | P PAmp | P PStar | P PLBracket | P PBang => true
   | _ => false
   end.
 
 Lemma ty_head (t : aty) : exists tk r, p_ty t = tk :: r /\ ty_start tk = true.
 Proof.
-  destruct t as [v|n args|s|ts|m l t]; cbn.
+  destruct t as [v|n args|s|ts|m l t|m t|t| |]; cbn.
   - destruct v; cbn; eauto.
   - eauto.
   - eauto.
   - destruct ts as [|t1 [|t2 r]]; cbn; eauto.
+  - eauto.
+  - eauto.
+  - eauto.
+  - eauto.
   - eauto.
 Qed.
 
@@ -37,17 +41,17 @@ Proof. destruct l as [[d i]| |]; reflexivity. Qed.
 Ltac ty_heads t rest :=
   let tk := fresh "tk" in let r := fresh "r" in let E := fresh "E" in let Hs := fresh "Hs" in
   destruct (ty_head t) as [tk [r [E Hs]]]; rewrite E; cbn [app];
-  destruct tk as [[]| | | | | |[]]; try discriminate Hs; try reflexivity.
+  destruct tk as [[]| | | | | | |[]]; try discriminate Hs; try reflexivity.
 
 Lemma starts_lt_ty t rest : starts_lt (p_ty t ++ rest) = false.
 Proof. ty_heads t rest. Qed.
-Lemma peek_ty p t rest : p <> PLParen -> p <> PAmp -> peek p (p_ty t ++ rest) = false.
-Proof. intros H1 H2. ty_heads t rest; destruct p; try reflexivity; congruence. Qed.
-Lemma peek_kw_ty k t rest : (forall s, k <> Kscalar s) -> peek_kw k (p_ty t ++ rest) = false.
+Lemma peek_ty p t rest : p <> PLParen -> p <> PAmp -> p <> PStar -> p <> PLBracket -> p <> PBang -> peek p (p_ty t ++ rest) = false.
+Proof. intros H1 H2 H3 H4 H5. ty_heads t rest; destruct p; try reflexivity; congruence. Qed.
+Lemma peek_kw_ty k t rest : (forall s, k <> Kscalar s) -> k <> Kstr -> peek_kw k (p_ty t ++ rest) = false.
 Proof.
-  intros H. destruct (ty_head t) as [tk [r [E Hs]]]. rewrite E. cbn [app].
-  destruct tk as [k'| | | | | |[]]; try discriminate Hs; try reflexivity.
-  destruct k'; try discriminate Hs. cbn. destruct k; try reflexivity. exfalso; eapply H; eauto.
+  intros H Hstr. destruct (ty_head t) as [tk [r [E Hs]]]. rewrite E. cbn [app].
+  destruct tk as [k'| | | | | | |[]]; try discriminate Hs; try reflexivity.
+  destruct k'; try discriminate Hs; cbn; destruct k; try reflexivity; try congruence; exfalso; eapply H; eauto.
 Qed.
 
 Lemma peek_lt p l rest : peek p (p_lt l ++ rest) = false.
@@ -75,7 +79,8 @@ Fixpoint need_ty (t : aty) : nat :=
   | TVar _ | TScalar _ => 1
   | TAdt _ args => S (list_sum (map (fun a => S (need_garg a)) args))
   | TTuple ts => S (list_sum (map (fun t => S (need_ty t)) ts))
-  | TRef _ _ t => S (need_ty t)
+  | TRef _ _ t | TRaw _ t | TSlice t => S (need_ty t)
+  | TStr | TNever => 1
   end
 with need_garg (a : agarg) : nat :=
   match a with GTy t => need_ty t | GLt _ => 0 end.
@@ -104,7 +109,7 @@ Proof.
     - intros [|a r] rest H H'; [congruence|]. unfold need_tys in H'. cbn in H'. lia. }
   repeat split.
   - (* types *)
-    intros t rest Hn Hr. destruct t as [v|nm args|s|ts|m l t]; cbn [need_ty] in Hn.
+    intros t rest Hn Hr. destruct t as [v|nm args|s|ts|m l t|m t|t| |]; cbn [need_ty] in Hn.
     + destruct v; reflexivity.
     + cbn [p_ty parse_ty app]. fold need_gargs in Hn. destruct args as [|a r].
       * cbn [map angle app]. unfold no_lt in Hr. rewrite Hr. reflexivity.
@@ -131,8 +136,14 @@ Proof.
     + cbn [p_ty]. norm. cbn [parse_ty]. rewrite parse_lt_print. cbn [obind].
       destruct m.
       * cbn [app peek_kw kw_code Nat.eqb tl]. rewrite IHt; [reflexivity|lia|exact Hr].
-      * cbn [app]. rewrite peek_kw_ty by (intros s; congruence).
+      * cbn [app]. rewrite peek_kw_ty by (try intros s; congruence).
         rewrite IHt; [reflexivity|lia|exact Hr].
+    + cbn [p_ty]. norm. cbn [parse_ty]. destruct m; rp.
+      * rewrite IHt; [reflexivity|lia|exact Hr].
+      * rewrite IHt; [reflexivity|lia|exact Hr].
+    + cbn [p_ty]. norm. cbn [parse_ty]. rewrite IHt; [|lia|reflexivity]. rp. reflexivity.
+    + reflexivity.
+    + reflexivity.
   - (* generic arguments *)
     intros args rest Hne Hn. destruct args as [|a r]; [congruence|].
     unfold need_gargs in Hn. cbn [map list_sum fold_right] in Hn.
@@ -230,9 +241,9 @@ Qed.
 Lemma peek_kw_wc k w rest : k = Kforall \/ k = Kwhere -> peek_kw k (p_wc w ++ rest) = false.
 Proof.
   intros Hk. destruct w as [self tr args|a b|t l]; cbn [p_wc]; norm.
-  - apply peek_kw_ty. intros s. destruct Hk; subst; congruence.
+  - apply peek_kw_ty; [intros s|]; destruct Hk; subst; congruence.
   - destruct a as [[d i]| |]; destruct Hk; subst; reflexivity.
-  - apply peek_kw_ty. intros s. destruct Hk; subst; congruence.
+  - apply peek_kw_ty; [intros s|]; destruct Hk; subst; congruence.
 Qed.
 
 Definition need_qwc (q : aqwc) : nat := length (fst q) + need_wc (snd q).
@@ -307,8 +318,29 @@ Proof.
     cbn [p_fields] in IH'. rewrite IH'. reflexivity.
 Qed.
 
+Definition need_variants (vs : list (list aty)) : nat := list_sum (map (fun fs => S (length fs + need_fields fs)) vs).
+
+Lemma parse_variants_print vs : forall m n i rest,
+  length vs < m -> need_variants vs <= n ->
+  parse_variants m n i (p_variants i vs ++ P PRBrace :: rest) = Some (vs, rest).
+Proof.
+  induction vs as [|fs r IH]; intros m n i rest Hm Hn.
+  - destruct m as [|m]; [cbn in Hm; arith|]. reflexivity.
+  - destruct m as [|m]; [cbn in Hm; arith|]. cbn [length] in Hm.
+    unfold need_variants, list_sum in Hn. cbn [map fold_right] in Hn.
+    cbn [p_variants]. norm. cbn [parse_variants]. rp. rewrite Nat.eqb_refl. cbn [andb].
+    assert (IH' := IH m n (S i) rest ltac:(arith) ltac:(unfold need_variants, list_sum; arith)).
+    destruct fs as [|f1 fr].
+    + cbn [p_fields sep_by app]. rp. rewrite IH'. reflexivity.
+    + assert (Hp : peek PRBrace (sep_by comma (p_fields 0 (f1 :: fr)) ++ P PRBrace :: P PComma :: p_variants (S i) r ++ P PRBrace :: rest) = false).
+      { cbn [p_fields]. destruct fr; cbn [p_fields]; [rewrite sep_one|rewrite sep_more]; reflexivity. }
+      rewrite Hp.
+      rewrite (parse_fields_print (f1 :: fr) n n 0); [|congruence|arith|arith]. rp. rewrite IH'. reflexivity.
+Qed.
+
 Definition need_item (it : aitem) : nat :=
   match it with
+  | IEnum _ ps _ vs wcs => length ps + S (length vs) + need_variants vs + length wcs + need_qwcs wcs
   | IStruct _ ps _ fs wcs => length ps + length fs + need_fields fs + length wcs + need_qwcs wcs
   | ITrait _ ps _ wcs => length ps + length wcs + need_qwcs wcs
   | IImpl ps _ _ _ args self wcs => length ps + need_gargs args + need_ty self + length wcs + need_qwcs wcs
@@ -319,12 +351,15 @@ Proof. induction l; cbn; auto. unfold kw_eqb at 1. now rewrite Nat.eqb_refl. Qed
 
 Lemma struct_attrs fl rest :
   parse_attrs (attr fl.(sf_upstream) Kupstream ++ attr fl.(sf_fundamental) Kfundamental
-               ++ attr fl.(sf_phantom_data) Kphantom_data ++ KW Kstruct :: rest)
+               ++ attr fl.(sf_phantom_data) Kphantom_data ++ attr fl.(sf_one_zst) Kone_zst ++ KW Kstruct :: rest)
   = (sflags_kws fl, KW Kstruct :: rest).
-Proof. destruct fl as [[] [] []]; reflexivity. Qed.
+Proof. destruct fl as [[] [] [] []]; reflexivity. Qed.
+
+Lemma enum_attrs fl rest : parse_attrs (sattrs fl ++ KW Kenum :: rest) = (sflags_kws fl, KW Kenum :: rest).
+Proof. destruct fl as [[] [] [] []]; reflexivity. Qed.
 
 Lemma sflags_recover fl : sflags_of (sflags_kws fl) = fl /\ kws_eqb (sflags_kws fl) (sflags_kws fl) = true.
-Proof. destruct fl as [[] [] []]; split; reflexivity. Qed.
+Proof. destruct fl as [[] [] [] []]; split; reflexivity. Qed.
 
 Lemma trait_attrs fl rest :
   parse_attrs (attr fl.(tf_auto) Kauto ++ attr fl.(tf_marker) Kmarker ++ attr fl.(tf_upstream) Kupstream
@@ -356,6 +391,19 @@ Proof.
     { cbn [p_fields]. destruct fr; cbn [p_fields]; [rewrite sep_one|rewrite sep_more]; reflexivity. }
     cbn [app] in *. rp. rewrite Hp.
     rewrite (parse_fields_print (f1 :: fr) n n 0 rest); [reflexivity|congruence|cbn [length] in *; arith|arith].
+Qed.
+
+Lemma parse_enum_print n name ps fl vs wcs rest :
+  need_item (IEnum name ps fl vs wcs) <= n ->
+  parse_enum n (sflags_kws fl) name
+    (p_params 1 0 ps ++ p_where 2 wcs ++ [P PLBrace] ++ p_variants 0 vs ++ [P PRBrace] ++ rest)
+  = Some (IEnum name ps fl vs wcs, rest).
+Proof.
+  cbn [need_item]. intros Hn. unfold parse_enum.
+  destruct (sflags_recover fl) as [E1 E2]. rewrite E1, E2.
+  rewrite parse_params_print; [|arith|destruct wcs; reflexivity]. rp.
+  rewrite parse_where_print; try arith; try reflexivity. rp. cbn [app]. rp.
+  rewrite (parse_variants_print vs n n 0 rest); [reflexivity|arith|arith].
 Qed.
 
 Lemma parse_trait_print n name ps fl wcs rest :
@@ -392,8 +440,9 @@ Qed.
 Lemma parse_item_print n it rest :
   need_item it <= n -> parse_item n (p_item it ++ rest) = Some (it, rest).
 Proof.
-  intros Hn. destruct it as [name ps fl fs wcs|name ps fl wcs|ps up pos tr args self wcs]; unfold parse_item, p_item.
+  intros Hn. destruct it as [name ps fl fs wcs|name ps fl vs wcs|name ps fl wcs|ps up pos tr args self wcs]; unfold parse_item, p_item.
   - norm. rewrite struct_attrs. cbn [fst snd]. apply (parse_struct_print n name ps fl fs wcs rest Hn).
+  - norm. rewrite enum_attrs. cbn [fst snd]. apply (parse_enum_print n name ps fl vs wcs rest Hn).
   - norm. rewrite trait_attrs. cbn [fst snd]. apply (parse_trait_print n name ps fl wcs rest Hn).
   - norm. rewrite impl_attrs. cbn [fst snd]. apply (parse_impl_print n ps up pos tr args self wcs rest Hn).
 Qed.
@@ -405,8 +454,9 @@ Definition need_ast (a : ast) : nat := list_sum (map (fun it => S (need_item it)
 
 Lemma p_item_cons it : exists tk r, p_item it = tk :: r.
 Proof.
-  destruct it as [name ps fl fs wcs|name ps fl wcs|ps up pos tr args self wcs]; cbn [p_item].
-  - destruct fl as [[] [] []]; cbn; eauto.
+  destruct it as [name ps fl fs wcs|name ps fl vs wcs|name ps fl wcs|ps up pos tr args self wcs]; cbn [p_item].
+  - destruct fl as [[] [] [] []]; cbn; eauto.
+  - destruct fl as [[] [] [] []]; cbn; eauto.
   - destruct fl as [[] [] [] [] [] [] []]; cbn; eauto.
   - destruct up; cbn; eauto.
 Qed.
